@@ -195,6 +195,10 @@ pub struct ListenerState {
     pub backlog: VecDeque<(usize, usize)>,
     pub waker: Option<Waker>,
     pub accepted: u64,
+    /// Transient listener failures: once the service has handled at least this many calls, the
+    /// next `accept` fails once (entry removed); the listener keeps working afterwards.
+    pub accept_fail_at: Vec<u64>,
+    pub accept_failures: u64,
 }
 
 #[derive(Debug, Default)]
@@ -1286,6 +1290,16 @@ impl Future for AcceptFut<'_> {
         let mut w = world.borrow_mut();
         w.tick_at("accept poll");
         w.seam_env();
+        if matches!(w.listener.accept_fail_at.first(), Some(at) if w.counter >= *at) {
+            w.listener.accept_fail_at.remove(0);
+            w.listener.accept_failures += 1;
+            w.stat("fault.transient_accept_error");
+            w.nontrivial = true;
+            w.ev("accept.err", 0, 0);
+            this.done = true;
+            let e = w.transport_error(true);
+            return Poll::Ready(Err(e));
+        }
         if !w.listener.backlog.is_empty() {
             if w.cfg.accept_pending_despite_backlog && w.tape.chance(1, 4) {
                 w.stat("buggify.accept_pending_despite_backlog");
